@@ -17,7 +17,7 @@ type GraphOpts struct {
 }
 
 var (
-	gTermTypes = []string{"user", "emp", "bot"}
+	gTermTypes = []string{"user", "emp", "bot", "svc"}
 	gObjTypes  = []string{"doc", "fld", "grp"}
 	gRelNames  = []string{"a", "b", "c", "d", "e"}
 )
@@ -41,6 +41,9 @@ func GraphModel(t *rapid.T, o GraphOpts) *Model {
 	if o.SmallModels {
 		maxT, maxO, maxRel = 2, 2, 3
 	}
+	if o.WildBoost {
+		maxT = 4 // wildcard lists of length >= 3 need enough public types
+	}
 	nTerm := rapid.IntRange(1, maxT).Draw(t, "nTerm")
 	nObj := rapid.IntRange(1, maxO).Draw(t, "nObj")
 	nRel := rapid.IntRange(1, maxRel).Draw(t, "nRel")
@@ -56,7 +59,7 @@ func GraphModel(t *rapid.T, o GraphOpts) *Model {
 		// tupleset relation
 		{
 			rd := Relation{Name: "p", Rw: &Rewrite{Kind: This}}
-			n := rapid.IntRange(1, 2).Draw(t, "np")
+			n := rapid.IntRange(1, 3).Draw(t, "np")
 			for k := 0; k < n; k++ {
 				x := Restriction{Type: rapid.SampledFrom(gObjTypes[:nObj]).Draw(t, "ptyp")}
 				if o.Hazards && rapid.IntRange(0, 79).Draw(t, "pterm") == 0 {
@@ -66,6 +69,12 @@ func GraphModel(t *rapid.T, o GraphOpts) *Model {
 					x.Cond, useCond = "c1", true
 				}
 				rd.Restr = append(rd.Restr, x)
+				if rapid.IntRange(0, 5).Draw(t, "pdup") == 0 {
+					// the same parent type again, conditioned (de-duplicated TTU edge), possibly before other parents
+					y := x
+					y.Cond, useCond = rapid.SampledFrom([]string{"c1", "c2"}).Draw(t, "pdupc"), true
+					rd.Restr = append(rd.Restr, y)
+				}
 			}
 			td.Rels = append(td.Rels, rd)
 		}
@@ -74,7 +83,11 @@ func GraphModel(t *rapid.T, o GraphOpts) *Model {
 			c.cur, c.nThis = j, 0
 			rd.Rw = c.rewrite(0)
 			if c.nThis > 0 {
-				n := rapid.IntRange(1, 3).Draw(t, "nRestr")
+				maxRestr := 3
+				if o.WildBoost {
+					maxRestr = 5
+				}
+				n := rapid.IntRange(1, maxRestr).Draw(t, "nRestr")
 				for k := 0; k < n; k++ {
 					x := Restriction{Type: rapid.SampledFrom(allTypes).Draw(t, "rtyp")}
 					isObj := false
@@ -86,7 +99,7 @@ func GraphModel(t *rapid.T, o GraphOpts) *Model {
 					kind := rapid.IntRange(0, 9).Draw(t, "rkind")
 					wildMax := 1
 					if o.WildBoost {
-						wildMax = 3
+						wildMax = 4
 					}
 					switch {
 					case kind <= wildMax:
